@@ -2,6 +2,8 @@ CONSTANTS
   BB = 2
   WB = 1
   MaxN = 9
+  LemmaP = 3
+  LemmaN = 7
   MaxK = 2
 SPECIFICATION Spec
 INVARIANTS Built Sorted Building RankLoopInv BSearchInv ScanInv Result DefLemmas MeasureNat NotStuck
